@@ -543,38 +543,40 @@ class SFloat:
         return SBool(self.ztag() == o.ztag()) & (
             (~self.is_fin()) | SBool(self.val == o.val))
 
-    # arithmetic: mathematical on FIN operands, unconstrained otherwise
-    def _arith(self, o, f):
+    # arithmetic: mathematical on FIN operands; with a non-FIN operand the result is an unspecified but
+    # DETERMINISTIC function of the operands (uninterpreted), so re-evaluating an expression gives the same value
+    def _arith(self, o, f, opname='op'):
         o = to_float(o)
         if self.known_finite and o.known_finite:
             return SFloat(FIN, f(self.val, o.val))
         both = self.is_fin() & o.is_fin()
-        ft = z3.Int(fresh_name('nf_t'))
-        fv = z3.Real(fresh_name('nf_v'))
-        _side_constraints.append(z3.And(ft >= 0, ft <= 3))
+        ut, uv = _nonfinite_fns(opname)
+        args = (self.ztag(), self.val, o.ztag(), o.val)
+        ft = ut(*args) % 4
+        fv = uv(*args)
         return SFloat(z3.If(both.z(), z3.IntVal(FIN), ft), z3.If(both.z(), f(self.val, o.val), fv))
 
     def __add__(self, o):
-        return self._arith(o, lambda a, b: a + b)
+        return self._arith(o, lambda a, b: a + b, 'add')
 
     __radd__ = __add__
 
     def __sub__(self, o):
-        return self._arith(o, lambda a, b: a - b)
+        return self._arith(o, lambda a, b: a - b, 'sub')
 
     def __rsub__(self, o):
-        return to_float(o)._arith(self, lambda a, b: a - b)
+        return to_float(o)._arith(self, lambda a, b: a - b, 'sub')
 
     def __mul__(self, o):
-        return self._arith(o, lambda a, b: a * b)
+        return self._arith(o, lambda a, b: a * b, 'mul')
 
     __rmul__ = __mul__
 
     def __truediv__(self, o):
-        return self._arith(o, lambda a, b: a / b)
+        return self._arith(o, lambda a, b: a / b, 'div')
 
     def __rtruediv__(self, o):
-        return to_float(o)._arith(self, lambda a, b: a / b)
+        return to_float(o)._arith(self, lambda a, b: a / b, 'div')
 
     def __neg__(self):
         if self.known_finite:
@@ -590,6 +592,21 @@ class SFloat:
 
     def __repr__(self):
         return f"SFloat({self.tag},{self.val})"
+
+
+_nf_cache = {}
+
+
+def _nonfinite_fns(opname):
+    if opname not in _nf_cache:
+        sig = [z3.IntSort(), z3.RealSort(), z3.IntSort(), z3.RealSort()]
+        _nf_cache[opname] = (z3.Function('nf_' + opname + '_t', *sig, z3.IntSort()),
+                             z3.Function('nf_' + opname + '_v', *sig, z3.RealSort()))
+    return _nf_cache[opname]
+
+
+nf_sqrt_t = z3.Function('nf_sqrt_t', z3.IntSort(), z3.RealSort(), z3.IntSort())
+nf_cast = z3.Function('nf_cast', z3.IntSort(), z3.RealSort(), z3.IntSort())
 
 
 # constraints that accompany fresh unconstrained values (tag ranges); the engine drains these
@@ -625,8 +642,7 @@ def fsqrt(x):
     x = to_float(x)
     if x.known_finite:
         return SFloat(FIN, sqrt_fn(x.val))
-    ft = z3.Int(fresh_name('nf_t'))
-    _side_constraints.append(z3.And(ft >= 0, ft <= 3))
+    ft = nf_sqrt_t(x.ztag(), x.val) % 4
     return SFloat(z3.If(x.is_fin().z(), z3.IntVal(FIN), ft), sqrt_fn(x.val))
 
 
